@@ -661,7 +661,12 @@ fn band_cases(thorough: bool) -> Vec<Case> {
             }
         }
         for f32_ in [false, true] {
-            v.push(Case { fam: fam.clone(), n: fam.m() + fam.p() + 100, prov: Prov::Hand, par: false, w: WKind::None, noise_variant: 1, level: 1e-3, amp: 1.0, solver: 0, f32_ });
+            for nu in [100usize, 995, 1001, 1201, 5000] {
+                if nu > 100 && fi >= 2 {
+                    continue;
+                }
+                v.push(Case { fam: fam.clone(), n: fam.m() + fam.p() + nu, prov: Prov::Hand, par: false, w: WKind::None, noise_variant: 1, level: 1e-3, amp: 1.0, solver: 0, f32_ });
+            }
         }
     }
     v
